@@ -86,6 +86,9 @@ def run(tier, seed, explicit=None):
         if exe_m:
             mism = V.compare_model(c, exe_m, cases, "c09ops")
             smism = V.compare_model(c, exe_m, cases, "c09ops", spec=True)
+            if explicit:  # replayed sources need not belong to the operator sublanguage
+                mism = [(l, v) for l, v in mism if v != "undecodable"]
+                smism = [(l, v) for l, v in smism if v != "undecodable"]
             sbad = set(l for l, _ in smism)
             for line, verdict in smism[:10]:
                 what = ("String() differs from the printer of the property" if verdict.startswith("(bad print")
